@@ -91,7 +91,7 @@ def unit_sets(tier):
         units['lib_' + os.path.basename(f)[:-4]] = (os.path.join(REPO, f), BASE_INC + BASE_FLAGS)
     for f in ('bluetoe/bindings/nordic/nrf52/security_tool_box.cpp', 'bluetoe/bindings/nordic/nrf52/nrf52.cpp'):
         if os.path.exists(os.path.join(VERIF, 'stubs', 'nrf.h')):
-            units['nrf_' + os.path.basename(f)[:-4]] = (os.path.join(REPO, f), BASE_INC + BASE_FLAGS)
+            units['nrf_' + os.path.basename(f)[:-4]] = (os.path.join(REPO, f), BASE_INC + ['-I' + REPO + '/bluetoe/bindings/nordic/uECC', '-fms-extensions'] + BASE_FLAGS)
     if tier == 'thorough':
         for f, flags in compile_db().items():
             if '/tests/' in f:
